@@ -23,7 +23,7 @@ MANIFEST_ENTRY = {
           "data object, the program the tree compiler builds is typable, ends every expression at depth one and is entered at (0,0); "
           "C06_balanced_operator_expressions (unbounded, on the operator fragment): for EVERY token list on which the reference "
           "precedence-climbing parser of C02 is defined (values, prefix / suffix / binary operators of every rank, conditionals and "
-          "else-chains, && / ||, apply forms `<~` `~>` `~~`, `^~`, comma and space lists, round brackets ( ) and nested expressions { } to any depth, whitespace; C02_full) the parsed tree, "
+          "else-chains, && / ||, apply forms `<~` `~>` `~~`, `^~`, comma and space lists, round brackets ( ) and nested expressions { } to any depth, whitespace; C02_full) and that contains no expression separator `;` (hypothesis no_separators toks -- the reference now also covers `;`, this theorem does not yet) the parsed tree, "
           "unless in C06-K1 / K3 / K4 (chain classes read at the head of the chain), keeps the discipline, so every program "
           "BuilderWL.build emits for it is typable - by induction on C02's index-carrying tree through Proofs/Builder/PrattBridge.v; "
           "a nested expression is an out-of-line body that must itself keep the discipline and is one value as an operand; "
